@@ -1,7 +1,6 @@
 import LJT.Gen.Tables
 /-! The QM arithmetic decoder of T.81 Annex D as coded in src/jdarith.c (`arith_decode`) and the
-binarisation of DC/AC coefficients of Annex F.2.4 / G.2 (`decode_mcu`, `decode_mcu_DC_first`,
-`decode_mcu_AC_first`, `decode_mcu_DC_refine`, `decode_mcu_AC_refine`).  Executable model used
+statistics bins.  The binarisation of coefficients on top of it is in Model/ArithBin.lean.  Executable model used
 by the independent reader for arithmetic-coded streams. -/
 namespace LJT.Arith
 
@@ -75,89 +74,5 @@ def decode (s : AS) (st : Nat) : Nat × AS :=
     else
       (sv / 128, { s with a := a1, stats := s.stats.setIfInBounds st (((sv / 128) * 128) ^^^ nm) })
   else (sv / 128, { s with a := a1 })
-
-/-- magnitude category bins: unary part starting at `st0`, returns (m, st after, state) or error -/
-def magUnary : Nat → Nat → Nat → AS → Option (Nat × Nat × AS)
-  | 0, _, _, _ => none
-  | fuel + 1, m, st, s =>
-    let (b, s) := decode s st
-    if b == 0 then some (m, st, s)
-    else
-      let m := m * 2
-      if m == 0x8000 then none else magUnary fuel m (st + 1) s
-
-/-- the magnitude bits below the leading one, bin `st` -/
-def magBits : Nat → Nat → Nat → Nat → AS → Nat × AS
-  | 0, v, _, _, s => (v, s)
-  | fuel + 1, v, m, st, s =>
-    let m := m / 2
-    if m == 0 then (v, s) else
-    let (b, s) := decode s st
-    magBits fuel (if b == 1 then v ||| m else v) m st s
-
-/-- DC difference (F.2.4.1 as coded): returns the difference and the new context -/
-def decodeDC (s : AS) (tbl ctx L U : Nat) : Option (Int × Nat × AS) :=
-  let st := dcBase tbl + ctx
-  let (b, s) := decode s st
-  if b == 0 then some (0, 0, s) else
-  let (sign, s) := decode s (st + 1)
-  let st := st + 2 + sign
-  let (m0, s) := decode s st
-  let r := if m0 != 0 then magUnary 20 1 (dcBase tbl + 20) s else some (0, st, s)
-  match r with
-  | none => none
-  | some (m, st, s) =>
-    let ctx' := if m < (2 ^ L) / 2 then 0 else if m > (2 ^ U) / 2 then 12 + sign * 4 else 4 + sign * 4
-    let (v, s) := magBits 20 m m (st + 14) s
-    let v : Int := (v : Int) + 1
-    some (if sign == 1 then -v else v, ctx', s)
-
-/-- one nonzero AC coefficient after its position is known (sign, magnitude) -/
-def decodeACval (s : AS) (tbl k K st : Nat) : Option (Int × AS) :=
-  let (sign, s) := decode s fixedBin
-  let st := st + 2
-  let (m0, s) := decode s st
-  let r :=
-    if m0 != 0 then
-      let (b, s) := decode s st
-      if b != 0 then magUnary 20 2 (acBase tbl + (if k ≤ K then 189 else 217)) s
-      else some (1, st, s)
-    else some (0, st, s)
-  match r with
-  | none => none
-  | some (m, st, s) =>
-    let (v, s) := magBits 20 m m (st + 14) s
-    let v : Int := (v : Int) + 1
-    some (if sign == 1 then -v else v, s)
-
-/-- AC coefficients of one block for a band `ss..se` (sequential: 1..63), first pass.
-Returns the list of (zigzag position, value) -/
-def decodeACband (s : AS) (tbl K ss se : Nat) : Option (List (Nat × Int) × AS) := Id.run do
-  let mut s := s
-  let mut k := ss
-  let mut out : List (Nat × Int) := []
-  let mut fuel := 70
-  while k ≤ se && fuel > 0 do
-    fuel := fuel - 1
-    let mut st := acBase tbl + 3 * (k - 1)
-    let (eob, s1) := decode s st
-    s := s1
-    if eob == 1 then break
-    -- zero run
-    let mut go := true
-    let mut f2 := 70
-    while go && f2 > 0 do
-      f2 := f2 - 1
-      let (nz, s2) := decode s (st + 1)
-      s := s2
-      if nz == 1 then go := false
-      else
-        st := st + 3; k := k + 1
-        if k > se then return none
-    match decodeACval s tbl k K st with
-    | none => return none
-    | some (v, s3) => s := s3; out := (k, v) :: out
-    k := k + 1
-  return some (out.reverse, s)
 
 end LJT.Arith
